@@ -40,11 +40,16 @@ Clause(e) ==
     [] OTHER -> "UNKNOWN-EVENT"
 
 TraceInit == l = 1 /\ T = NoneT /\ phase = "-"
+\* implementation-shaped: the marshalled form is the reference wire form (drift only, see Wire.tla)
+WireDrift(e) ==
+  e.ev = "roundtrip" /\ ~e.amb /\ e.w.k = "ok" /\ Exact(e.T, e.v, Defs) /\ ~IsWireOf(e.T, e.v, e.w.r, Defs)
+
 TraceNext ==
   /\ l <= Len(Log)
   /\ l' = l + 1
   /\ LET e == Log[l] c == Clause(e) IN
-     IF c = "" THEN TRUE ELSE PrintT(ToJson([rej |-> l, clause |-> c]))
+     /\ (IF c = "" THEN TRUE ELSE PrintT(ToJson([rej |-> l, clause |-> c])))
+     /\ (IF WireDrift(e) THEN PrintT(ToJson([drift |-> l, what |-> "wire form differs from the reference"])) ELSE TRUE)
   /\ UNCHANGED vars
 TraceSpec == TraceInit /\ [][TraceNext]_<<vars, l>>
 Consumed == PrintT(ToJson([consumed |-> TLCGet("stats").diameter - 1]))
